@@ -351,6 +351,8 @@ class SFTPFile(BufferedFile):
         self.sftp._log(
             DEBUG, "truncate({}, {!r})".format(hexlify(self.handle), size)
         )
+        # data still sitting in the write buffer was written before this call
+        self.flush()
         attr = SFTPAttributes()
         attr.st_size = size
         self.sftp._request(CMD_FSETSTAT, self.handle, attr)
